@@ -21,6 +21,23 @@ THEOREMS = [
     "Claripy.Solver.clSolution_spec", "Claripy.Solver.clTruth_spec", "Claripy.Solver.clExtremum_spec",
     "Claripy.Solver.clAdd_spec", "Claripy.Solver.clSimplify_spec", "Claripy.Solver.clDownsize_spec",
     "Claripy.Solver.dedupAdd_spec", "Claripy.Solver.filter_spec",
+    # the caching class Solver: invariant of ModelCacheMixin, every operation of the mixin, the fast paths, the whole stack,
+    # every history over trees of branched solvers
+    "Claripy.Props.C11.C11_modelcache_init", "Claripy.Props.C11.C11_modelcache_hook", "Claripy.Props.C11.C11_modelcache_add",
+    "Claripy.Props.C11.C11_modelcache_satisfiable", "Claripy.Props.C11.C11_modelcache_batch_eval",
+    "Claripy.Props.C11.C11_modelcache_eval", "Claripy.Props.C11.C11_modelcache_extremum",
+    "Claripy.Props.C11.C11_modelcache_solution", "Claripy.Props.C11.C11_modelcache_copy_pickle_simplify",
+    "Claripy.Props.C11.C11_cache_satisfiable_fast", "Claripy.Props.C11.C11_cache_eval_fast",
+    "Claripy.Props.C11.C11_cache_extremum_fast", "Claripy.Props.C11.C11_cache_solution_fast",
+    "Claripy.Props.C11.C11_solver_refines", "Claripy.Props.C11.C11_solver_refines_or_gives_up",
+    "Claripy.Props.C11.C11_solver_step", "Claripy.Props.C11.C11_solver_hypotheses_consistent",
+    "Claripy.Solver.mcHookFe_inv", "Claripy.Solver.mc_add_spec", "Claripy.Solver.mc_batchEval_spec",
+    "Claripy.Solver.mc_extremum_spec", "Claripy.Solver.z3BatchEval_hooked", "Claripy.Solver.z3Extrema_hooked",
+    "Claripy.Solver.full_satisfiable_spec", "Claripy.Solver.full_batchEval_spec", "Claripy.Solver.full_extremum_spec",
+    "Claripy.Solver.full_solution_spec", "Claripy.Solver.fc_add_low", "Claripy.Solver.satCache_add_low",
+    "Claripy.Solver.dedup_add_low", "Claripy.Solver.filter_add_spec", "Claripy.Solver.solSimplify_spec",
+    "Claripy.Solver.satCacheQuery_spec", "Claripy.Solver.expansion_opt_spec", "Claripy.Solver.sL9_ok3",
+    "Claripy.Solver.sol_step", "Claripy.Solver.sol_hist_giveup", "Claripy.Solver.cHyps",
 ]
 TESTS = []
 CLASSES = ["Solver", "SolverCacheless", "SolverStrings"]
